@@ -163,6 +163,33 @@ theorem continuing_allocAdd_some {a : Alloc} {t : Cand} (b : Ballot) (w : Rat) (
     continuing (allocAdd a (some t) b w) = continuing a := by
   rw [continuing_eq, allocKeys_allocAdd_of_mem b w (mem_continuing.mp ht), ← continuing_eq]
 
+theorem allocPile_cons (h' : Option Cand) (p : Pile) (ys : Alloc) (h : Option Cand) :
+    allocPile ((h', p) :: ys) h = if h' = h then p else allocPile ys h := by
+  by_cases he : h' = h <;> simp [allocPile, he]
+
+/-- adding non-negative weight never lowers a pile -/
+theorem pileTotal_allocAdd_ge (a : Alloc) (h : Option Cand) (b : Ballot) {w : Rat} (hw : 0 ≤ w) (h' : Option Cand) :
+    pileTotal (allocPile a h') ≤ pileTotal (allocPile (allocAdd a h b w) h') := by
+  induction a with
+  | nil =>
+    simp only [allocAdd, allocPile_cons]
+    split
+    · rw [pileTotal_pileAdd]; simp [allocPile, hw]
+    · exact le_refl _
+  | cons y ys ih =>
+    obtain ⟨k, p⟩ := y
+    simp only [allocAdd]
+    split
+    · rename_i hk
+      simp only [allocPile_cons]
+      split
+      · rw [pileTotal_pileAdd]; linarith
+      · exact le_refl _
+    · simp only [allocPile_cons]
+      split
+      · exact le_refl _
+      · exact ih
+
 /-- holder keys are distinct -/
 def KeysNodup (a : Alloc) : Prop := (allocKeys a).Nodup
 
@@ -365,6 +392,15 @@ theorem mem_allocKeys_foldAdd {a : Alloc} {h' : Option Cand} (b : Ballot) (r : L
   | nil => exact hm
   | cons x xs ih => rw [foldAdd_cons]; exact ih (mem_allocKeys_allocAdd _ _ _ hm)
 
+theorem pileTotal_foldAdd_ge (a : Alloc) (b : Ballot) {r : List (Cand × Rat)} (hr : ∀ x ∈ r, 0 ≤ x.2)
+    (h' : Option Cand) : pileTotal (allocPile a h') ≤ pileTotal (allocPile (foldAdd a b r) h') := by
+  induction r generalizing a with
+  | nil => exact le_refl _
+  | cons x xs ih =>
+    rw [foldAdd_cons]
+    exact le_trans (pileTotal_allocAdd_ge a _ b (hr x List.mem_cons_self) h')
+      (ih _ (fun y hy => hr y (List.mem_cons_of_mem _ hy)))
+
 theorem KeysNodup.foldAdd {a : Alloc} (hk : KeysNodup a) (b : Ballot) (r : List (Cand × Rat)) :
     KeysNodup (foldAdd a b r) := by
   induction r generalizing a with
@@ -404,6 +440,7 @@ structure MoveSpec (cont : List Cand) (frm : Option Cand) (pile : Pile) (a a' : 
   keys : KeysNodup a → KeysNodup a'
   nonneg : NonNeg a → (∀ x ∈ pile, 0 ≤ x.2) → NonNeg a'
   keep : ∀ h', h' ∈ allocKeys a → h' ∈ allocKeys a'
+  grow : (∀ x ∈ pile, 0 ≤ x.2) → ∀ h', pileTotal (allocPile a h') ≤ pileTotal (allocPile a' h')
   entry : ∀ hp ∈ a', ∀ x ∈ hp.2, (∃ hp' ∈ a, hp'.1 = hp.1 ∧ x ∈ hp'.2) ∨
     ∃ bw ∈ pile, x.1 = bw.1 ∧ Lands cont frm bw.1 hp.1
 
@@ -416,7 +453,8 @@ theorem moveBallot_spec {E : Engine} (hE : EngineOK E) {cont : List Cand} {frm :
   · rename_i hnil
     injection h with h; injection h with h1 h2; subst h1
     refine ⟨by simp [held_allocAdd], continuing_allocAdd_none _ _ _, fun hk => hk.allocAdd _ _ _,
-      fun hn hw => hn.allocAdd _ _ (hw (b, w) (by simp)), fun _ hm => mem_allocKeys_allocAdd _ _ _ hm, ?_⟩
+      fun hn hw => hn.allocAdd _ _ (hw (b, w) (by simp)), fun _ hm => mem_allocKeys_allocAdd _ _ _ hm,
+      fun hw h' => pileTotal_allocAdd_ge a _ b (hw (b, w) (by simp)) h', ?_⟩
     intro hp hhp x hx
     rcases allocAdd_entry hhp hx with ⟨h3, h4⟩ | h5
     · right; exact ⟨(b, w), by simp, h4, Or.inl ⟨h3, hnil⟩⟩
@@ -425,7 +463,8 @@ theorem moveBallot_spec {E : Engine} (hE : EngineOK E) {cont : List Cand} {frm :
     injection h with h; injection h with h1 h2; subst h1
     have ht : t ∈ continuing a := hc t (hsub t (by rw [hone]; simp))
     refine ⟨by simp [held_allocAdd], continuing_allocAdd_some _ _ ht, fun hk => hk.allocAdd _ _ _,
-      fun hn hw => hn.allocAdd _ _ (hw (b, w) (by simp)), fun _ hm => mem_allocKeys_allocAdd _ _ _ hm, ?_⟩
+      fun hn hw => hn.allocAdd _ _ (hw (b, w) (by simp)), fun _ hm => mem_allocKeys_allocAdd _ _ _ hm,
+      fun hw h' => pileTotal_allocAdd_ge a _ b (hw (b, w) (by simp)) h', ?_⟩
     intro hp hhp x hx
     rcases allocAdd_entry hhp hx with ⟨h3, h4⟩ | h5
     · right; exact ⟨(b, w), by simp, h4, Or.inr ⟨t, h3, by rw [hone]; simp⟩⟩
@@ -444,7 +483,8 @@ theorem moveBallot_spec {E : Engine} (hE : EngineOK E) {cont : List Cand} {frm :
       have hrc : ∀ x ∈ r, x.1 ∈ continuing a := fun x hx => hc _ (hsub _ (hkeys x hx))
       refine ⟨?_, continuing_foldAdd b hrc, fun hk => hk.foldAdd _ _,
         fun hn hw => hn.foldAdd _ (hE.split_nonneg hs (hw (b, w) (by simp))),
-        fun _ hm => mem_allocKeys_foldAdd _ _ hm, ?_⟩
+        fun _ hm => mem_allocKeys_foldAdd _ _ hm,
+        fun hw h' => pileTotal_foldAdd_ge a b (hE.split_nonneg hs (hw (b, w) (by simp))) h', ?_⟩
       · rw [held_foldAdd, hE.split_sum hs (by intro he; exact hn1 he)]; simp
       · intro hp hhp x hx
         rcases foldAdd_entry hhp hx with ⟨h3, t, ht, h4⟩ | h5
@@ -458,7 +498,8 @@ theorem movePile_spec {E : Engine} (hE : EngineOK E) {cont : List Cand} {frm : O
   | nil =>
     simp only [movePile] at h
     injection h with h; injection h with h1 h2; subst h1
-    exact ⟨by simp, rfl, id, fun hn _ => hn, fun _ hm => hm, fun hp hhp x hx => Or.inl ⟨hp, hhp, rfl, hx⟩⟩
+    exact ⟨by simp, rfl, id, fun hn _ => hn, fun _ hm => hm, fun _ _ => le_refl _,
+      fun hp hhp x hx => Or.inl ⟨hp, hhp, rfl, hx⟩⟩
   | cons bw rest ih =>
     obtain ⟨b, w⟩ := bw
     simp only [movePile] at h
@@ -471,7 +512,9 @@ theorem movePile_spec {E : Engine} (hE : EngineOK E) {cont : List Cand} {frm : O
       have s1 := moveBallot_spec hE hc hm
       have s2 := ih (a := a1) (by rw [s1.cont_eq]; exact hc) h
       refine ⟨?_, by rw [s2.cont_eq, s1.cont_eq], fun hk => s2.keys (s1.keys hk), ?_,
-        fun h' hm => s2.keep h' (s1.keep h' hm), ?_⟩
+        fun h' hm => s2.keep h' (s1.keep h' hm),
+        fun hw h' => le_trans (s1.grow (by intro x hx; simp at hx; subst hx; exact hw (b, w) List.mem_cons_self) h')
+          (s2.grow (fun x hx => hw x (List.mem_cons_of_mem _ hx)) h'), ?_⟩
       · rw [s2.held_eq, s1.held_eq]; simp; ring
       · intro hn hw
         exact s2.nonneg (s1.nonneg hn (by intro x hx; simp at hx; subst hx; exact hw (b, w) List.mem_cons_self))
@@ -558,6 +601,20 @@ theorem mem_allocKeys_erase_none {a : Alloc} (hm : none ∈ allocKeys a) (c : Ca
   obtain ⟨hp, hhp, he⟩ := List.mem_map.mp hm
   exact List.mem_map.mpr ⟨hp, List.mem_filter.mpr ⟨hhp, by simp [he]⟩, he⟩
 
+theorem allocPile_erase_ne (a : Alloc) {h h' : Option Cand} (hne : h' ≠ h) :
+    allocPile (allocErase a h) h' = allocPile a h' := by
+  induction a with
+  | nil => rfl
+  | cons y ys ih =>
+    obtain ⟨k, p⟩ := y
+    by_cases hk : k = h
+    · have : allocErase ((k, p) :: ys) h = allocErase ys h := by
+        unfold allocErase; rw [List.filter_cons]; simp [hk]
+      rw [this, ih, allocPile_cons, if_neg (by rw [hk]; exact fun e => hne e.symm)]
+    · have : allocErase ((k, p) :: ys) h = (k, p) :: allocErase ys h := by
+        unfold allocErase; rw [List.filter_cons]; simp [hk]
+      rw [this, allocPile_cons, allocPile_cons, ih]
+
 theorem KeysNodup.erase {a : Alloc} (hk : KeysNodup a) (h : Option Cand) : KeysNodup (allocErase a h) := by
   unfold KeysNodup allocKeys allocErase at *
   exact List.Nodup.sublist (List.Sublist.map _ List.filter_sublist) hk
@@ -584,6 +641,7 @@ structure TransferSpec (cont rs : List Cand) (a a' : Alloc) : Prop where
   keys : KeysNodup a → KeysNodup a'
   nonneg : NonNeg a → NonNeg a'
   keep_none : none ∈ allocKeys a → none ∈ allocKeys a'
+  grow : NonNeg a → ∀ h', (∀ c ∈ rs, h' ≠ some c) → pileTotal (allocPile a h') ≤ pileTotal (allocPile a' h')
   entry : ∀ hp ∈ a', ∀ x ∈ hp.2, Descends cont rs a hp.1 x.1
 
 theorem lands_target {cont : List Cand} {frm : Option Cand} {b : Ballot} {h : Option Cand}
@@ -600,7 +658,7 @@ theorem transferGo_spec {E : Engine} (hE : EngineOK E) {cont : List Cand} {rs : 
   | nil =>
     simp only [transferGo] at h
     injection h with h; injection h with h1 h2; subst h1
-    refine ⟨fun _ => rfl, by simp, id, id, id, ?_⟩
+    refine ⟨fun _ => rfl, by simp, id, id, id, fun _ _ _ => le_refl _, ?_⟩
     intro hp hhp x hx
     exact ⟨hp, hhp, ⟨x.2, hx⟩, Or.inl ⟨rfl, by simp⟩⟩
   | cons c rest ih =>
@@ -621,7 +679,7 @@ theorem transferGo_spec {E : Engine} (hE : EngineOK E) {cont : List Cand} {rs : 
       have s1 := movePile_spec hE hc0 hm
       have s2 := ih (a := a1) (by rw [s1.cont_eq]; exact hc0) (fun d hd => hr d (List.mem_cons_of_mem _ hd)) h
       refine ⟨?_, ?_, fun hk => s2.keys (s1.keys (hk.erase _)), fun hn => s2.nonneg (s1.nonneg (hn.erase _) (hn.pile _)),
-        fun hm => s2.keep_none (s1.keep none (mem_allocKeys_erase_none hm c)), ?_⟩
+        fun hm => s2.keep_none (s1.keep none (mem_allocKeys_erase_none hm c)), ?_, ?_⟩
       · intro hk
         rw [s2.held_eq (s1.keys (hk.erase _)), s1.held_eq, held_erase hk]
       · rw [s2.cont_eq, s1.cont_eq, continuing_erase, List.filter_filter]
@@ -629,6 +687,12 @@ theorem transferGo_spec {E : Engine} (hE : EngineOK E) {cont : List Cand} {rs : 
         funext x
         simp only [List.mem_cons, not_or, ne_eq, decide_not, Bool.decide_and]
         by_cases h1 : x = c <;> by_cases h2 : x ∈ rest <;> simp [h1, h2]
+      · intro hn h' hh'
+        have h1 : allocPile (allocErase a (some c)) h' = allocPile a h' :=
+          allocPile_erase_ne a (hh' c List.mem_cons_self)
+        rw [← h1]
+        exact le_trans (s1.grow (hn.pile _) h')
+          (s2.grow (s1.nonneg (hn.erase _) (hn.pile _)) h' (fun d hd => hh' d (List.mem_cons_of_mem _ hd)))
       · intro hp hhp x hx
         obtain ⟨hp1, hm1, ⟨w1, hw1⟩, hrel⟩ := s2.entry hp hhp x hx
         -- the paper of `a1` it descends from
